@@ -157,9 +157,18 @@ def verify_contract(args):
                         fail["native_failed"] = o.failed
                 except Exception as e:
                     fail["model_error"] = "%s: %s" % (type(e).__name__, e)
-            if not fail["replayed"] and c.native:
+            if not fail["replayed"] and (c.native or (c.extract and c.gen)):
                 try:
-                    argmap, o, tried, valid = native.search_violation(c, rseed + 1, 4000 if tier == "quick" else 40000)
+                    if c.native:
+                        argmap, o, tried, valid = native.search_violation(c, rseed + 1, 4000 if tier == "quick" else 40000)
+                    else:
+                        # an extracted contract with a generator: small-scope search on the extracted function text
+                        native.NS_RECORDS[0] = True
+                        try:
+                            argmap, o, tried, valid = native.search_violation(c, rseed + 1, 4000 if tier == "quick" else 40000,
+                                                                              fn=native.extracted_callable(c))
+                        finally:
+                            native.NS_RECORDS[0] = False
                     fail["search"] = {"tried": tried, "valid": valid}
                     if argmap is not None:
                         fail["replayed"] = True
@@ -658,7 +667,12 @@ def replay(path):
         return 0 if ok else 1
     if d.get("function") and d.get("inputs") and d["function"] in api.REG:
         c = api.REG[d["function"]]
-        if d.get("gen_replay"):
+        if d.get("gen_replay") and c.extract and not c.native:
+            native.NS_RECORDS[0] = True
+            argmap = native.regenerate(c, d["gen_replay"]["seed"], d["gen_replay"]["index"])
+            o = native.check_native(c, argmap, fn=native.extracted_callable(c))
+            print("(replayed on the extracted function text)")
+        elif d.get("gen_replay"):
             argmap = native.regenerate(c, d["gen_replay"]["seed"], d["gen_replay"]["index"])
             o = native.check_native(c, argmap)
         elif c.extract and not c.native:
